@@ -267,7 +267,8 @@ def c09_oracle(order, cases, impl):
             a = args_of(c[4])
             nm = a[0].decode("latin1").lower() if a else "?"
             hist[nm] = hist.get(nm, 0) + 1
-            if nm.endswith("expire") or nm.endswith("persist") or nm == "setex":
+            if nm.endswith("expire") or nm.endswith("persist") or nm == "setex" or \
+                    (nm == "set" and any(x.lower() == b"ex" for x in a[3:])):
                 ttl_used.add(seq)
             fresh[seq] = False
             keys = a[1:] if nm == "del" else a[1:2]
@@ -438,6 +439,8 @@ def plan(ctx):
         runs.append(("rand-pebble", "-seed %d -n 250 -len 40 -types khszl -policy mix -counters" % (seed + 7919), "pebble"))
         runs.append(("exh2", "-exh 2 -types khszl -policy local -xcounters", "mem"))
         runs.append(("exh3-ttl", "-exh 3 -types HSZLK -policy compact -xcounters", "mem"))
+        # third leg: the same kind of sequences over the redis protocol of a real single-replica server (proposer-side handlers)
+        runs.append(("live", "-live -seed %d -n 400 -len 30 -types khszl" % (seed + 15485863), "mem"))
     else:
         runs.append(("rand-mem", "-seed %d -n 12000 -len 60 -types khszl -policy mix -counters" % seed, "mem"))
         runs.append(("rand-mem-long", "-seed %d -n 1500 -len 300 -types khszl -policy mix -counters" % (seed + 31), "mem"))
@@ -447,6 +450,8 @@ def plan(ctx):
         runs.append(("exh3-compact", "-exh 3 -types hsz -policy compact -xcounters", "mem"))
         runs.append(("exh4-ttl-compact", "-exh 4 -types HSZLK -policy compact -xcounters", "mem"))
         runs.append(("exh3-ttl-local", "-exh 3 -types HSZLK -policy local -xcounters", "mem"))
+        runs.append(("live", "-live -seed %d -n 3000 -len 40 -types khszl" % (seed + 15485863), "mem"))
+        runs.append(("live-pebble", "-live -seed %d -n 300 -len 40 -types khszl" % (seed + 32452843), "pebble"))
     return runs
 
 
